@@ -250,11 +250,18 @@ def {}():
         # blocks that read/write obj itself, a part of obj (field, slice),
         # or a signal that contains obj. A signal that is driven through a
         # connection is written when the writer of its net is written.
+        # The same holds for a signal that is read through a connection, and
+        # for a net that carries a part of obj or a signal that contains obj.
+        def contains( x, y ): # x is y or a signal that y is a part of
+          while y.is_signal():
+            if y is x: return True
+            y = y.get_parent_object()
+          return False
+
         objs = { obj }
-        if typ == 'wr':
-          for writer, signals in top.get_all_value_nets():
-            if obj in signals:
-              objs.update( signals )
+        for writer, signals in top.get_all_value_nets():
+          if any( contains( x, obj ) or contains( obj, x ) for x in signals ):
+            objs.update( signals )
 
         related_blks = set()
         for x, blks in equal_blks.items():
